@@ -4,6 +4,16 @@ import json, os
 VERIF = os.path.dirname(os.path.dirname(os.path.abspath(__file__)))
 
 CHECKS = {
+ "C04": dict(level="model_checking", engine="E1 opseq-BFS",
+   technique="explicit-state BFS over session/KV/catalog/prepared-query/txn command sequences on the real FSM; state invariants + transition rules",
+   text="Every command sequence (to the reported depth, from every seed) over session create/destroy, lock/unlock/set/delete/delete-tree, node/service/check register, deregister, status flips, rename by ID, session-bound prepared queries and transactions mixing these (including the Session delete verb) runs on the real FSM. On every state: no key held by a missing session, no check link or session-bound query of a missing session, every session's node exists and none of its checks is critical or missing. On every transition: a session that ended released or deleted its keys in that same step; lock/unlock verdicts follow the holder rule.",
+   note="TTL expiry is represented by the replicated destroy it turns into; the leader's timer wheel is not explored. Same trusted base as C03.",
+   design="§3 C04"),
+ "C05": dict(level="model_checking", engine="E1 opseq-BFS",
+   technique="explicit-state enumeration of pre-states x transaction op lists on the real FSM; byte-identical-dump / no-publish / no-deferred-callback / no-woken-watcher oracle for failures, differential vs. sequential application for successes",
+   text="From every pre-state of a catalog/KV/session BFS, every list (length<=2 over 39 verbs; length 3 over a focused subset in thorough) is applied as one Txn raft command, which places a failing operation at every position. Failure => full 36-table dump identical, no event batch published, no tombstone-GC hint deferred, no watch channel fired (fresh-instance pass), no results. Success => every changed row carries the entry's index and content equals applying the same operations one by one. Read-only transactions leave the dump identical.",
+   note="Watch-channel firing is only observable on a primary memdb, so that clause runs on freshly replayed instances from the seed states only. Stand-alone equivalents exist for non-CAS verbs; lists containing catalog CAS verbs are checked for atomicity but not differentially.",
+   design="§3 C05"),
  "C03": dict(level="model_checking", engine="E1 opseq-BFS",
    technique="explicit-state BFS over KV/session/txn command sequences on the real FSM, reference-map oracle on every transition",
    text="Every sequence (to the reported depth, from every seed) of direct and transactional KV verbs, session create/destroy and tombstone reaps over prefix-colliding keys is executed on the real fsm.FSM/state.Store; after every transition the command result, get of every key and list of every prefix are compared with a 150-line reference map. Exhaustive within the stated alphabet and depth.",
